@@ -218,6 +218,7 @@ func runScript(t *testing.T, run *vt.Run, c vt.CaseID, rng *rand.Rand, gossip bo
 			in     *lcsim.Inst
 			stolen uint32
 			judged bool
+			at     time.Time
 		}
 		var basicThefts []*basicTheft
 		stealBasic := func() {
@@ -256,7 +257,7 @@ func runScript(t *testing.T, run *vt.Run, c vt.CaseID, rng *rand.Rand, gossip bo
 				synctest.Wait()
 				if err == nil && stolen != 0 {
 					stolenFrom[id.cfg.ID] = true
-					basicThefts = append(basicThefts, &basicTheft{in: in, stolen: stolen})
+					basicThefts = append(basicThefts, &basicTheft{in: in, stolen: stolen, at: time.Now()})
 					run.Count("tokens_stolen_during_basic_observe", 1)
 					log("token %d of %s (basic) moved to %s while it observes", stolen, id.cfg.ID, tid)
 				}
@@ -273,17 +274,64 @@ func runScript(t *testing.T, run *vt.Run, c vt.CaseID, rng *rand.Rand, gossip bo
 				if !ok {
 					continue // removed by somebody else (auto-forget): nothing to judge
 				}
+				// an entry that was removed by somebody else in between (auto-forget of a peer: the victim may have
+				// heart-beating disabled) is re-registered with the remembered tokens, as it has to be: not judged
+				absent := false
+				for _, ver := range st.VersionsOf(lcsim.Key) {
+					if ver.At.Before(bt.at) {
+						continue
+					}
+					if x, derr := ring.GetCodec().Decode(ver.Bytes); derr == nil {
+						if _, present := ring.GetOrCreateRingDesc(x).Ingesters[bt.in.Cfg.ID]; !present {
+							absent = true
+						}
+					}
+				}
+				if absent {
+					run.Count("basic_observe_thefts_not_judged_entry_was_forgotten", 1)
+					continue
+				}
 				run.Count("basic_observe_thefts_judged", 1)
 				sortedUnique := true
 				for i := 1; i < len(e.Tokens); i++ {
 					sortedUnique = sortedUnique && e.Tokens[i-1] < e.Tokens[i]
 				}
+				// holding the lost token again is fine once nobody else holds it (the foreign entry may have been
+				// forgotten meanwhile, and a seeded generator then picks the same free token again); holding it
+				// while another entry still has it is not
 				holds := false
 				for _, tk := range e.Tokens {
-					holds = holds || tk == bt.stolen
+					if tk != bt.stolen {
+						continue
+					}
+					for oid, oe := range curDesc().Ingesters {
+						if oid == bt.in.Cfg.ID {
+							continue
+						}
+						for _, ot := range oe.Tokens {
+							holds = holds || ot == bt.stolen
+						}
+					}
 				}
 				if len(e.Tokens) != bt.in.Cfg.NumTokens || !sortedUnique || holds {
-					run.Violation(c, "basic-observe/lost-token-not-replaced", fmt.Sprintf("%s lost token %d to another instance while observing; it reports Running with tokens %v (configured %d)", bt.in.Writer, bt.stolen, e.Tokens, bt.in.Cfg.NumTokens), map[string]any{"actions": acts})
+					// the victim's token list over every version written, with the writer of each change
+					var hist []string
+					prevT := ""
+					for _, ver := range st.VersionsOf(lcsim.Key) {
+						x, derr := ring.GetCodec().Decode(ver.Bytes)
+						if derr != nil {
+							continue
+						}
+						ve, present := ring.GetOrCreateRingDesc(x).Ingesters[bt.in.Cfg.ID]
+						cur := fmt.Sprintf("present=%v state=%v tokens=%v", present, ve.State, ve.Tokens)
+						if cur != prevT {
+							hist = append(hist, fmt.Sprintf("t=%v v%d by %s: %s", ver.At.Sub(t0), ver.N, ver.Writer, cur))
+							prevT = cur
+						}
+					}
+					acts = append(acts, hist...)
+					acts = append(acts, fmt.Sprintf("config: %+v", bt.in.Cfg))
+					run.Violation(c, "basic-observe/lost-token-not-replaced", fmt.Sprintf("%s lost token %d to another instance while observing; it reports Running with tokens %v (configured %d; wrong count, unsorted, or a token another entry still holds)", bt.in.Writer, bt.stolen, e.Tokens, bt.in.Cfg.NumTokens), map[string]any{"actions": acts})
 				}
 			}
 		}
